@@ -47,6 +47,20 @@ pub(super) fn make_entrypoints_file(
         .map(|x| x.try_into_struct::<ResultRow>().expect("invalid conversion"))
         .collect();
     rows.sort_unstable();
+
+    // Entrypoints become functions named after the entrypoint's snake-case name.
+    // Like for vertex and field names, refuse schemas where two of them would collide.
+    let mut uniq: BTreeMap<String, String> = BTreeMap::new();
+    for row in &rows {
+        let converted = escaped_rust_name(to_lower_snake_case(&row.name));
+        if let Some(v) = uniq.insert(converted, row.name.clone()) {
+            panic!(
+                "cannot generate adapter for a schema containing both '{}' and '{}' as entrypoint names, consider renaming one of them",
+                v, row.name
+            );
+        }
+    }
+
     for row in rows {
         let parameters: Vec<_> = row.parameter_name.into_iter().zip(row.parameter_type).collect();
 
